@@ -214,9 +214,9 @@ func (r *Ref) Enabled(maxH, nIDs int) []Event {
 				if h == tip && (blk == nil || blk.ID != id) {
 					continue
 				}
-				if spec.Coinbase && blk != nil && len(blk.Txs) > 0 {
-					continue // a coinbase is the first transaction of its block
-				}
+				// (a coinbase is the first transaction of its block, but not necessarily the
+				// first one RECORDED for it: a rescan for a newly imported key delivers it
+				// after the block's other transactions, so no order is imposed here)
 				// parents confirmed earlier (lower height or earlier in
 				// this block)
 				ok := true
